@@ -12,7 +12,7 @@ ArgDescs == << <<"dec", FALSE, <<7>>, 0>>, <<"dec", FALSE, <<2,7,5>>, -2>>, <<"d
                <<"map", [k |-> <<"int", 1>>]>>, <<"time", 19000, 0, 0>>, <<"dec", FALSE, <<3>>, 2>>, <<"slice", <<>>>>,
                <<"strs", << <<97>>, <<98>> >>>>, <<"ints", <<1, 2>>>> >>          \* typed Go slices []string{"a","b"}, []int{1,2}
 \*              7           2.75          -2.75        'ab'       true     null     [1, 2.5]      ['a','b']     {k:1}    a time     300 (beyond int8)   []
-Rets == {"int", "int32", "int64", "float32", "float64", "string", "error", "nil"}
+Rets == {"int", "int32", "int64", "float32", "float32b", "float64", "string", "error", "nil"}
 
 VARIABLES phase, sig, args, spread, ret, out
 vars == <<phase, sig, args, spread, ret, out>>
@@ -21,7 +21,9 @@ Sigs == { <<c, ks, v>> : c \in BOOLEAN, ks \in UNION { [1..n -> Kinds] : n \in 0
 ValidSig(s) == s[3] => (Len(s[2]) >= 1 /\ s[2][Len(s[2])] \in {"string", "int", "any", "float64", "big"})
 \* the value the formula yields when the function is called
 RetValue(r) == CASE r = "int" -> <<"v", NumI(7)>> [] r = "int32" -> <<"v", NumI(-3)>> [] r = "int64" -> <<"v", NumOf(Canon(FALSE, <<9,0,0,7,1,9,9,2,5,4,7,4,0,9,9,3>>, 0))>>
-                 [] r = "float32" -> <<"v", NumOf(Canon(FALSE, <<2,5>>, -1))>> [] r = "float64" -> <<"v", NumOf(Canon(FALSE, <<1>>, -1))>>
+                 [] r = "float32" -> <<"v", NumOf(Canon(FALSE, <<2,5>>, -1))>>
+                 [] r = "float32b" -> <<"v", NumOf(Canon(FALSE, <<1,0,0,0,0,0,0,0,1,4,9,0,1,1,6,1,2>>, -17))>>     \* float32(0.1) is the number 0.10000000149011612
+                 [] r = "float64" -> <<"v", NumOf(Canon(FALSE, <<1>>, -1))>>
                  [] r = "string" -> <<"v", Str(<<111,107>>)>> [] r = "nil" -> <<"v", Null>> [] r = "error" -> <<"named-error">>
 Outcome(s, as, sp, r) ==
   LET vals == [i \in 1..Len(as) |-> Norm(ArgDescs[as[i]])]
